@@ -151,6 +151,14 @@ def constructed(rng):
                 p = rng.randrange(0, 19)
                 q = rng.randrange(0, 19)
                 dd(c, p, d, q)
+    # 5c. operands at floor(T / 10^k) +- 2 for every primitive-type maximum T
+    for x, y in G.threshold_pairs(rng)[::3]:
+        dd(x[0], x[1], y[0], y[1])
+    # 5d. 256-bit product whose top 64-bit word is a multiple of 10^shift and whose next word is below 10^shift
+    from .. import knuth as K
+    for op, l, r, n in K.api_small_divisor_top_word(rng, 60, G.fD, 18):
+        if op == "mulr":
+            out.append("%s %s %s %s" % (rng.choice(("mul", "cmul")), rng.choice(("vv", "*", "rr")), l, r))
     # 6. zero / one operands in every representation
     for s in range(19):
         for t in (0, 5, 18):
